@@ -326,6 +326,11 @@ func checkC02(c *Ctx) {
 	c02SameType(c)
 	c02ErrCarry(c)
 	c02AnyMembers(c)
+	// a frame into which another writer's bytes were interleaved is not what the handler returned: the stream-integrity
+	// rules of C09 (one mutex per shared stream, one critical section per frame) are necessary here too
+	expl, nd, as := c.R.Explanation, c.R.NotDecided, c.R.Assumptions
+	checkC09(c)
+	c.R.Explanation, c.R.NotDecided, c.R.Assumptions = expl+" The stream-integrity rules of C09 (R-field-writer, R-shared-writer, R-frame-atomic, R-payload) are evaluated as well.", nd, as
 	c01FreshBuffer(c) // a message handed to a caller must not share its buffer with the next one read
 
 	// ---- R-unbounded-frames: the reader that returns a call's answer must not impose a line-length limit
